@@ -58,17 +58,29 @@ def hashed_quantities(spec):
         if n:
             out += _plane_q(vs[0], n[0])
     elif t == "ConvexPolyhedron":
-        vs = X.vertices(spec)
-        for p in vs:
-            out += list(p)
-        faces = X.hull_faces(vs)
+        if spec.get("form") == "faces":
+            allp = [X.vec(p) for p in spec["pts"]]
+            seen = []
+            for p in allp:
+                if p not in seen:
+                    seen.append(p)
+            for p in seen:
+                out += list(p)
+            faces = [[allp[i] for i in f] for f in spec["faces"]]
+        else:
+            vs = X.vertices(spec)
+            for p in vs:
+                out += list(p)
+            faces = [[vs[i] for i in X.order_face(vs, f)] for f in X.hull_faces(vs)]
         for f in faces:
             n = None
             for i in range(1, len(f) - 1):
-                n = X.cross(X.sub(vs[f[i]], vs[f[0]]), X.sub(vs[f[i + 1]], vs[f[0]]))
+                n = X.cross(X.sub(f[i], f[0]), X.sub(f[i + 1], f[0]))
                 if not X.is_zero(n):
                     break
-            out += _plane_q(vs[f[0]], n)
+            # the library orients face normals outwards; the sign only permutes
+            # hash(plane) and hash(-plane), rounding boundaries are symmetric
+            out += _plane_q(f[0], n)
     return out
 
 
